@@ -7,5 +7,6 @@ CONSTANTS
   InitFree = {62, 63, 64}
   InitOffset = 1
   DoubleClear = FALSE
+  RaceClear = FALSE
 INVARIANTS TypeOK Unique HeldMarked Range Reserved CountNonNeg CountExact AvailableExact NoFalseExhaustion ClearReports
 PROPERTIES DoubleClearHarmless
